@@ -211,7 +211,7 @@ def run_impl(cfg, workdir, sampler_hook=None, reuse=None, tag="run"):
     r.cp = sampler.current_proposal
     r.acc = sampler.accepted_proposals
     r.cur = col(sampler.current_model)
-    r.cur_x = float(sampler.current_x)
+    r.cur_x = float(sampler.current_x) if sampler.current_x is not None else float("nan")
     r.final_step = sampler.stepsize
     r.hist_a = col(sampler.acceptance_rates) if cfg["tune"] and sampler.acceptance_rates is not None else []
     r.hist_s = col(sampler.stepsizes) if cfg["tune"] and sampler.stepsizes is not None else []
